@@ -429,9 +429,15 @@ def with_eol(text, eol, rng):
     return text
 
 
-def render_hand_file(schema, ops, rng, header=True, eol=None):
-    """Render one hand-written migration file. Returns the text."""
+def render_hand_file(schema, ops, rng, header=True, eol=None, bom=False, tx=None):
+    """Render one hand-written migration file. Returns the text. bom: the file starts with a byte order mark directly
+    followed by its first statement; tx: the statements are wrapped in BEGIN TRANSACTION; .. END; ("end"), BEGIN; .. END;
+    ("end_short"), BEGIN; .. COMMIT; ("commit") or BEGIN TRANSACTION; .. COMMIT; ("commit_long")."""
     style = rng.choice(["plain", "comments", "pragmas", "spaced"])
+    if bom:
+        style, header = "plain", False
+    if tx:
+        style = rng.choice(["plain", "comments"])
     chunks = []
     for op in ops:
         if op.get("file_nolint") is not None:
@@ -448,6 +454,8 @@ def render_hand_file(schema, ops, rng, header=True, eol=None):
     needs_pragma = style == "pragmas" and any(op["op"] in ("drop_cols", "drop_cols_rebuild", "drop_cols_rebuild_variant", "add_column_rebuild", "drop_table", "replace_table", "recreate_table", "rebuild_neighbor", "rename_drop", "rename_first_rebuild", "replace_inplace") for op, _ in stmts)
     if needs_pragma:
         chunks.append("PRAGMA foreign_keys = off;\n")
+    if tx:
+        chunks.append("BEGIN TRANSACTION;\n" if tx in ("end", "commit_long") else "BEGIN;\n")
     for op, ss in stmts:
         if style in ("comments", "pragmas"):
             chunks.append("-- %s\n" % COMMENTS[op["op"]])
@@ -460,10 +468,12 @@ def render_hand_file(schema, ops, rng, header=True, eol=None):
                 # a statement directive: a comment directly above the statement the diagnostic is reported on
                 chunks.append(("-- atlas:nolint %s" % op["nolint"]).rstrip() + "\n")
             chunks.append(s + ";\n")
+    if tx:
+        chunks.append("END;\n" if tx in ("end", "end_short") else "COMMIT;\n")
     if needs_pragma:
         chunks.append("PRAGMA foreign_keys = on;\n")
-    text = "".join(chunks)
-    if rng.random() < 0.15:
+    text = ("\ufeff" if bom else "") + "".join(chunks)
+    if rng.random() < 0.15 and not tx:
         text = text.rstrip("\n")
         if rng.random() < 0.5 and text.endswith(";"):
             text = text[:-1]  # last statement without a terminator
@@ -812,6 +822,7 @@ FOCUS = [("readd_alter", "hand"), ("readd_rebuild", "hand"), ("recreate_table", 
          ("rebuild_then_drop", "atlas"), ("rename_drop", "hand"), ("rename_chain", "hand"), ("rename_first_rebuild", "hand"),
          ("nolint_some", "hand"), ("nolint_some", "atlas"), ("nolint_all", "hand"), ("nolint_wrong", "hand"), ("nolint_file", "hand"),
          ("replace_inplace", "hand"), ("crlf", "hand"), ("crlf", "atlas"), ("drop_virtual_table", "hand"),
+         ("bom_destructive_first", "hand"), ("bom_additive_first", "hand"), ("tx_end", "hand"), ("tx_commit", "hand"),
          None]
 
 
@@ -903,9 +914,46 @@ def gen_evolution(rng, nsteps=6, focus=None):
                 apply_op(schema, o)
             protect = set()
             continue
-        if stepno == fpos and focus[0] in ("crlf", "drop_virtual_table"):
+        if stepno == fpos and focus[0] in ("crlf", "drop_virtual_table", "bom_destructive_first", "bom_additive_first", "tx_end", "tx_commit"):
             fops = []
-            if focus[0] == "drop_virtual_table":
+            if focus[0].startswith("bom_") or focus[0].startswith("tx_"):
+                cur = schema.clone()
+                used = set()
+
+                def take(op):
+                    if op is not None and compatible(fops, op):
+                        fops.append(op)
+                        apply_op(cur, op)
+                        used.update({op["t"], "new_" + op["t"]} if "t" in op else {op["table"].name})
+                d = None
+                for _try in range(20):
+                    d = simple_destructive(rng, cur, (), used)
+                    if d is None or focus[0] != "bom_destructive_first" or d["op"] != "drop_cols_rebuild":
+                        break
+                if focus[0] == "bom_destructive_first":
+                    take(d)
+                    if rng.random() < 0.5:
+                        take(make_op(rng, cur, rng.choice(["add_column", "add_index", "add_table"]), "hand", protect=used))
+                elif focus[0] == "bom_additive_first":
+                    take(make_op(rng, cur, rng.choice(["temp_table", "temp_table", "add_table", "add_column"]), "hand", protect=used))
+                    if rng.random() < 0.6:
+                        take(d)
+                else:
+                    if rng.random() < 0.5:
+                        take(make_op(rng, cur, rng.choice(["add_column", "add_index", "add_table"]), "hand", protect=used))
+                    take(d)
+                    if rng.random() < 0.5:
+                        take(simple_destructive(rng, cur, (), used))
+                    if rng.random() < 0.3:
+                        take(make_op(rng, cur, "temp_table", "hand", protect=used))
+                if not fops:
+                    take(make_op(rng, cur, "add_table", "hand"))
+                step = {"writer": "hand", "ops": fops, "kind": focus[0], "focus": True}
+                if focus[0].startswith("bom_"):
+                    step.update(bom=True, cls="bom:" + focus[0][4:].replace("_", "-"))
+                else:
+                    step.update(tx=rng.choice(["end", "end", "end_short"] if focus[0] == "tx_end" else ["commit", "commit_long"]), cls=focus[0].replace("_", ":"))
+            elif focus[0] == "drop_virtual_table":
                 if rng.random() < 0.5:
                     a = make_op(rng, schema, rng.choice(["add_column", "add_index", "add_table"]), "hand", protect=protect)
                     if a is not None:
@@ -1085,7 +1133,7 @@ def file_class(ops):
 class Stmt:
     def __init__(self, region, start, end, text):
         self.region, self.start, self.end, self.text = region, start, end, text
-        self.kind, self.args = classify(text)
+        self.kind, self.args = classify(text.lstrip("\ufeff"))  # a byte order mark before the first statement is white space to SQLite
 
     def __repr__(self):
         return "Stmt(%d,%d,%d,%s%r)" % (self.region, self.start, self.end, self.kind, self.args)
